@@ -84,7 +84,7 @@ theorem forwardStage_forward (env : Env) (caller : Caller) (r : Req) (u : UpReq)
      (u.headers = signedHeaders r (ownedHeaders env caller r) ∧ u.signed = none ∧
         (env.key = none ∨ ∃ g k, env.key = some (g, k) ∧ isHexKey k = false)) ∨
      (∃ guid key si, env.key = some (guid, key) ∧ shouldSkipSig r.method r.uri = false ∧ isHexKey key = true ∧
-        sigInput r.method r.body (signedHeaders r (ownedHeaders env caller r)) r.uri = some si ∧
+        sigInput r.method r.body (signedHeaders r (ownedHeaders env caller r)) r.uri = si ∧
         u.headers = insert authHeader (authScheme ++ [' '] ++ guid ++ [' '] ++ mac key si)
           (signedHeaders r (ownedHeaders env caller r)) ∧
         u.signed = some (guid, si))) := by
@@ -111,20 +111,35 @@ theorem forwardStage_forward (env : Env) (caller : Caller) (r : Req) (u : UpReq)
       obtain ⟨guid, key⟩ := gk
       rw [hk] at h
       simp only at h
-      cases hsi : sigInput r.method r.body
-          (signedHeaders r (insert dateHeader env.now (insert claimsHeader (claimsValue caller.elevated) (ofWire r.headers)))) r.uri with
-      | none => rw [hsi] at h; cases h
-      | some si =>
-        rw [hsi] at h
-        simp only at h
-        by_cases hx : isHexKey key = true
-        · rw [if_pos hx] at h
-          simp only [mkForward, Outcome.forward.injEq] at h
-          subst h
-          exact ⟨rfl, rfl, rfl, hle, Or.inr (Or.inr ⟨guid, key, si, rfl, by simpa using hs, hx, hsi, rfl, rfl⟩)⟩
-        · rw [if_neg hx] at h
-          simp only [mkForward, Outcome.forward.injEq] at h
-          subst h
-          exact ⟨rfl, rfl, rfl, hle, Or.inr (Or.inl ⟨rfl, rfl, Or.inr ⟨guid, key, rfl, by simpa using hx⟩⟩)⟩
+      by_cases hx : isHexKey key = true
+      · rw [if_pos hx] at h
+        simp only [mkForward, Outcome.forward.injEq] at h
+        subst h
+        exact ⟨rfl, rfl, rfl, hle, Or.inr (Or.inr ⟨guid, key, _, rfl, by simpa using hs, hx, rfl, rfl, rfl⟩)⟩
+      · rw [if_neg hx] at h
+        simp only [mkForward, Outcome.forward.injEq] at h
+        subst h
+        exact ⟨rfl, rfl, rfl, hle, Or.inr (Or.inl ⟨rfl, rfl, Or.inr ⟨guid, key, rfl, by simpa using hx⟩⟩)⟩
+
+/-- no stage of the request path panics any more: every request gets an outcome that is an answer -/
+theorem handle_no_panic (env : Env) (conn : Conn) (r : Req) : (handle mac env conn r).outcome ≠ .panic := by
+  unfold handle
+  split; · simp
+  split; · simp
+  split; · simp
+  unfold connStage
+  split; · simp
+  split; · simp
+  unfold authStage
+  split; · simp
+  simp only
+  split; · simp
+  simp only [forwardStage]
+  split; · simp
+  split; · simp [mkForward]
+  unfold signStage
+  split; · simp [mkForward]
+  simp only
+  split <;> simp [mkForward]
 
 end Gpa.Pipeline
